@@ -145,6 +145,10 @@ void Sim::do_exit(int code, const char* how) {
   event(std::string("EXIT ") + std::to_string(code) + " " + how);
   exited = true;
   exit_code = code;
+  // A process that calls _exit inside a signal handler is gone together with whatever that handler (and the code it
+  // interrupted) left half-done in static storage.  The simulator can only jump out of the handler, so the worker
+  // process retires after reporting this run: the next scenario starts from a fresh image, as it would in reality.
+  if (in_signal > 0) tainted = true;
   if (exit_jmp) {
     // the simulated process is gone: drop anything still pending for it
     signal(SIGINT, SIG_IGN); signal(SIGTERM, SIG_IGN);
